@@ -728,6 +728,32 @@ fn classify_pk(bytes: &[u8]) -> PkClass {
 /// Everything the statement says about a public key the library accepted and the
 /// reference decodes to `pt`: bytes/hex round trip, compression flag, compress and
 /// decompress equal the reference and are mutually inverse, HASH160 of the address.
+/// The hex text in upper case and with the case of every other letter flipped (both cases present when it has two letters).
+fn hex_case_variants(lower: &str) -> Vec<(&'static str, String)> {
+    let upper = lower.to_uppercase();
+    let mut k = 0;
+    let mixed: String = lower
+        .chars()
+        .map(|c| {
+            if c.is_ascii_alphabetic() {
+                k += 1;
+                if k % 2 == 0 {
+                    return c.to_ascii_uppercase();
+                }
+            }
+            c
+        })
+        .collect();
+    let mut v = vec![];
+    if upper != lower {
+        v.push(("upper", upper));
+    }
+    if mixed != lower {
+        v.push(("mixed", mixed));
+    }
+    v
+}
+
 fn check_valid_pubkey(acc: &mut Acc, case: &Case, input: &Value, pk: &PublicKey, bytes: &[u8], pt: &Point) {
     let enc_c = secp::encode_point(pt, true);
     let enc_u = secp::encode_point(pt, false);
@@ -744,6 +770,18 @@ fn check_valid_pubkey(acc: &mut Acc, case: &Case, input: &Value, pk: &PublicKey,
         acc.traces += 1;
         if pk2 != *pk {
             acc.violate("C07/PublicKey::from_hex/kind=wrong-result", case.idx, case.json(input.clone()), format!("from_hex(hex(b)) = {:?} differs from from_bytes(b) = {:?}", pk2, pk));
+        }
+    }
+    // the same bytes written with upper-case and with mixed-case hex digits are the same encoding
+    for (variant, text) in hex_case_variants(&hex::encode(bytes)) {
+        match call(acc, || PublicKey::from_hex(&text)) {
+            Tri::Ok(pk3) => {
+                acc.traces += 1;
+                if pk3 != *pk {
+                    acc.violate(format!("C07/PublicKey::from_hex/kind=wrong-result/hex-case={}", variant), case.idx, case.json(input.clone()), format!("from_hex({}) differs from from_bytes of the same bytes", text));
+                }
+            }
+            other => acc.violate(format!("C07/PublicKey::from_hex/kind=spurious-error/hex-case={}", variant), case.idx, case.json(input.clone()), format!("from_hex({}) -> {}; from_bytes accepts the same bytes", text, other.code())),
         }
     }
     let comp = mcall(acc, case, input, "PublicKey::to_compressed", || pk.to_compressed());
@@ -1002,6 +1040,16 @@ pub fn spaces(tier: Tier) -> Vec<Space> {
             if let Some(s2) = mcall(acc, case, &input, "PrivateKey::from_hex", || PrivateKey::from_hex(&hex::encode(k.key32))) {
                 if let Tri::Ok(b) = call_plain(acc, || s2.to_bytes()) {
                     eq_bytes(acc, case, &input, "PrivateKey::from_hex", &b, &k.key32);
+                }
+            }
+            for (variant, text) in hex_case_variants(&hex::encode(k.key32)) {
+                match call(acc, || PrivateKey::from_hex(&text)) {
+                    Tri::Ok(s3) => {
+                        if let Tri::Ok(b) = call_plain(acc, || s3.to_bytes()) {
+                            eq_bytes(acc, case, &input, "PrivateKey::from_hex", &b, &k.key32);
+                        }
+                    }
+                    other => acc.violate(format!("C07/PrivateKey::from_hex/kind=spurious-error/hex-case={}", variant), case.idx, case.json(input.clone()), format!("from_hex({}) -> {}", text, other.code())),
                 }
             }
             // WIF
